@@ -58,11 +58,14 @@ func famDist(sc *scn.Scenario, em func(vt.Ev)) {
 		em(vt.Ev{"ev": "skip", "why": "parse", "q": q})
 		return
 	}
-	runtime.GOMAXPROCS(sc.CfgInt("procs", 4))
+	runtime.GOMAXPROCS(sc.Procs())
 	em(header(sc, expr))
 	cl := newClassifier()
 	all := run.SeriesOf(sc, sc.Data)
-	central := engine.New(run.EngineOpts(sc, "default", true, nil))
+	// cfg.fallback = 1: constructs the engine does not support are part of the comparison - the central
+	// engine, the distributed engine and the remote engines all have the fallback enabled
+	noFallback := sc.CfgInt("fallback", 0) == 0
+	central := engine.New(run.EngineOpts(sc, "default", noFallback, nil))
 	cout := run.Exec(context.Background(), central, vstore.New(all), sc, false)
 	if cout.CreateErr != nil {
 		em(vt.Ev{"ev": "skip", "why": "not native", "q": q})
@@ -92,7 +95,7 @@ func famDist(sc *scn.Scenario, em func(vt.Ev)) {
 			}
 			remotes = append(remotes, engine.NewLocalEngine(run.EngineOpts(sc, "default", false, nil), vstore.New(part)))
 		}
-		de := engine.NewDistributedEngine(run.EngineOpts(sc, "default", true, nil), api.NewStaticEndpoints(remotes))
+		de := engine.NewDistributedEngine(run.EngineOpts(sc, "default", noFallback, nil), api.NewStaticEndpoints(remotes))
 		local := vstore.New(all)
 		dout := run.Exec(context.Background(), de, local, sc, false)
 		em(vt.Ev{"ev": "cfg", "cfg": fmt.Sprintf("distributed engines=%d assignment=%v local_selects=%d", ne, asg, len(local.SelectRecs()))})
